@@ -3,4 +3,6 @@ CONSTANTS
   MaxStr = 3
 SPECIFICATION Spec
 INVARIANT ReadEqualsWritten
+INVARIANT TokensReadEqualWritten
+INVARIANT FieldTextsReadEqualWritten
 CHECK_DEADLOCK FALSE
